@@ -35,6 +35,9 @@ type ConvSpec struct {
 	Extend    []ExtSpec
 	FuncNames map[string]int // FUNC texts of map ... | FUNC and default FUNC lines
 	Custom    bool           // uses custom functions / contexts / errors (structural oracles do not apply)
+	CtxRegex  bool           // converter-level arg:context:regex ^ctx
+	ctxPool   []*Ty
+	patGroups int
 }
 
 type pgen struct {
@@ -56,6 +59,9 @@ type pgenWeights struct {
 	folddup  int // percent of structs that get a field differing from another one only in capitalisation
 	flatten  int // percent of methods whose target flattens a nested source struct (autoMap)
 	update   int // percent of methods declared as update methods
+	funcs    int // percent of converters decorated with custom functions, contexts and error results
+	defaults int // percent of decorated struct methods that get a default FUNC
+	smeth    int // percent of decorated struct methods that use a method of the source as a field source
 }
 
 func (g *pgen) edit(s string) { g.edits = append(g.edits, s) }
@@ -502,6 +508,7 @@ func (g *pgen) converter(idx int) *ConvSpec {
 			}
 		}
 	}
+	g.decorate(c)
 	return c
 }
 
